@@ -232,15 +232,17 @@ def run_check(pid, tier, replay_case=None, quiet=False):
     known = [k for k in known_findings() if k.get("property") == pid and k.get("status", "known") == "known"]
     unlisted = []
     listed = {}
+    matched = {}
     rdir = os.path.join(VERIF, "replays", pid) if REPO == "/repo" else os.path.join(BUILD, "replays-scratch", pid)
     for v in rep.get("violations_list") or []:
         hit = None
         for k in known:
-            if k["key"] == v["key"] or (k.get("key_regex") and re.fullmatch(k["key_regex"], v["key"])):
+            if k["key"] == v["key"] or v["key"] in k.get("keys", ()) or (k.get("key_regex") and re.fullmatch(k["key_regex"], v["key"])):
                 hit = k
                 break
         if hit is not None:
             listed.setdefault(hit["key"], hit)
+            matched.setdefault(hit["key"], []).append(v["key"])
             continue
         os.makedirs(rdir, exist_ok=True)
         h = hashlib.sha1(v["key"].encode()).hexdigest()[:12]
@@ -282,6 +284,7 @@ def run_check(pid, tier, replay_case=None, quiet=False):
         "wall_s": round(time.time() - t0, 3),
         "violations": len(unlisted),
         "known_findings_seen": sorted(listed.keys()),
+        "known_finding_matches": {k: sorted(v) for k, v in matched.items()},
     }
     if replay_case is None and REPO == "/repo":
         os.makedirs(os.path.join(VERIF, "evidence"), exist_ok=True)
